@@ -394,8 +394,13 @@ func ruleFSCallback(c *Ctx, cb *ssa.Function, fl fsFlags, absent bool) {
 				if !taken {
 					existsOpen = true
 				}
-			case cnd.Op == "call" && strings.HasPrefix(cnd.Aux, "bytes.Equal"):
+			case cnd.Op == "call" && strings.HasPrefix(cnd.Aux, "bytes.Equal"),
+				cnd.Op == "binop" && (cnd.Aux == "==" || cnd.Aux == "!=") && len(cnd.Args) == 2 && strings.Contains(cnd.String(), "io.ReadAll") && strings.Contains(cnd.String(), "io/fs.ReadFile"):
+				// bytes.Equal(a, b), or the same comparison written string(a) == string(b)
 				equal, equalKnown = taken, true
+				if cnd.Op == "binop" && cnd.Aux == "!=" {
+					equal = !taken
+				}
 				// operands: disk content of `path` and template of `path`
 				okOps := len(cnd.Args) == 2
 				if okOps {
